@@ -469,6 +469,8 @@ class Gen:
                 kinds += ["partial"] * 2
             if self.p.macros and not isolated and depth == 0:
                 kinds += ["macro"]
+                if len(self.macro_names) < 4:
+                    kinds += ["lamscope"]
         if loop:
             kinds += ["break", "continue"]
         if self.macro_names and not isolated:
@@ -648,6 +650,41 @@ class Gen:
             b.append(M.Out(M.Filt(M.Var(params[0][0]))) if params else M.Out(M.Filt(M.Var("args"), [M.FCall("join", [M.Lit("+")])])))
             self.macro_names.append((name, [(p, e2[p]) for p, _ in params]))
             return M.Macro(name, params, b)
+        if k == "lamscope":
+            # An arrow function whose body reads a variable of the scope it is written in
+            # (a macro parameter / a keyword argument of a rendered partial), used under the
+            # same filter name from several scopes with different values.
+            pn = self.name_for("int")
+            f = r.choice(["where", "reject", "find_index", "has", "where", "find"])
+            cmpv: Any = M.Var(pn)
+            lam_p = r.choice(["it", "x", "e"])
+            if True:
+                lam: Any = M.Lam([lam_p], M.Cmp(r.choice(["==", "!=", "<", ">="]), M.Var(lam_p, ["k"]), cmpv))
+                tail = {"where": [M.FCall("map", [M.Lit("k")]), M.FCall("join", [M.Lit(",")])],
+                        "reject": [M.FCall("map", [M.Lit("k")]), M.FCall("join", [M.Lit(",")])],
+                        "find": [M.FCall("json")], "find_index": [], "has": []}[f]
+            use = M.Out(M.Filt(M.Var("items"), [M.FCall(f, [lam]), *tail]))
+            vals = r.sample([0, 1, 2, 3, 5], 3)
+            out: list[Any] = []
+            if r.random() < 0.5:
+                # ... and from the enclosing template itself, before or after
+                out.append(M.Assign(pn, M.Filt(M.Lit(vals[2]))))
+                out.append(use)
+            if r.random() < 0.6:
+                name = f"mac{len(self.macro_names)}"
+                self.macro_names.append((name, [(pn, "int")]))
+                out.append(M.Macro(name, [(pn, None)], [M.Text("("), use, M.Text(")")]))
+                out.append(M.Call(name, [M.Lit(vals[0])], []))
+                out.append(M.Call(name, [], [(pn, M.Lit(vals[1]))]))
+            elif self.p.partials:
+                pname = f"{self.p.partial_prefix}part{len(self.partials)}{self.p.partial_suffix}"
+                self.partials[pname] = [M.Text("<"), use, M.Text(">")]
+                self.n_partials += 1
+                out.append(M.Partial("render", pname, None, None, None, [(pn, M.Lit(vals[0]))]))
+                out.append(M.Partial("render", pname, None, None, None, [(pn, M.Lit(vals[1]))]))
+            if r.random() < 0.5:
+                out.append(use)
+            return out or None
         if k == "call":
             name, ptypes = r.choice(self.macro_names)
             args = [self.prim(t, env, loop) for _, t in ptypes[: r.randint(0, len(ptypes))]]
